@@ -618,8 +618,8 @@ func corpus(r *c.Rng, tier string) []*spec {
 	s.Cookies = []string{"a=1; @S; b=2"}
 	s = add(baseSpec("three cookie lines", "GET", "/c3"))
 	s.Cookies = []string{"a=1", "@S", "b=\"2 3\""}
-	// whitelisted path: client identity headers pass through and are signed as received
-	s = add(baseSpec("skip-auth path, client-supplied identity headers", "GET", "/open/x", hdr{"X-Forwarded-User", "mallory"}, hdr{"X-Forwarded-Email", "m@evil.test"}))
+	// whitelisted path: client-supplied identity headers are dropped by Proxy before anything is signed
+	s = add(baseSpec("skip-auth path, client-supplied identity headers (dropped)", "GET", "/open/x", hdr{"X-Forwarded-User", "mallory"}, hdr{"X-Forwarded-Email", "m@evil.test"}))
 	s.Ident, s.Cookies = false, nil
 	// paths / queries
 	for _, t := range []string{"/a%2Fb%3Fc%23d?x=%2F&y=%3F", "/\xc3\xa9?\xc3\xa9=1", "/a%0Ab?x=%0A", "/p?", "/p?a=#b", "http://" + fromHost + "/abs?q=1"} {
